@@ -6,7 +6,7 @@ package tool
 // Contracts for package tool (consumed by /verif/govc; comment-only file).
 
 //@ func BinarySearch
-//@   props C08 C04 C16 C05 C14
+//@   props C08 C04 C16 C05 C14 C12 C13
 //@   arith int
 //@   requires sortedDesc(re) && allNonNil(re)
 //@   ensures  inspos: 0 <= insertPos(result.0, result.1) && insertPos(result.0, result.1) <= len(re)
